@@ -33,7 +33,7 @@ META = {
 }
 
 MODULE = "KafkaVerif.Props.C10"
-SCENARIOS = ["balancers", "writer", "writergrow", "codecs", "codecfail", "readerfront", "reader", "readergroup", "readerrebalance", "conn", "transport", "transportchurn", "transporttls", "clientapis"]
+SCENARIOS = ["balancers", "writer", "writergrow", "codecs", "codecfail", "readerfront", "reader", "readergroup", "readerrebalance", "conn", "connproduce", "transport", "transportchurn", "transporttls", "clientapis"]
 
 HDR = re.compile(r"^(Read|Write|Previous read|Previous write|Atomic read|Atomic write|Previous atomic read|Previous atomic write) at 0x[0-9a-f]+ by (?:goroutine \d+|main goroutine):")
 FRAME = re.compile(r"^\s+(\S+):(\d+)(?: \+0x[0-9a-f]+)?$")
@@ -115,6 +115,8 @@ def run(ctx):
                        "detail": "%s in the sources, %s translated" % (table.get("lock_ops_in_source"), table.get("lock_ops_in_skeletons"))})
     for c in table["confinement"]:
         broken.append({"kind": "obligation", "name": "annotation side condition violated", "detail": c})
+    for c in (table.get("copied_locks") or [])[:20]:
+        broken.append({"kind": "obligation", "name": "lock operation on a by-value copy of a mutex (value receiver / struct parameter): it excludes nobody", "detail": c})
     table_sites = {(r["file"], r["line"]) for r in table["rows"]}
     # ---- 1b. lock facts: the compiled oracle computes the entry-lockset fixpoint and the list of table rows the
     # verified analysis does not re-derive; the kernel re-checks both (Props/C10 §4)
